@@ -16,8 +16,15 @@
   borrows iff `q̂ = q + 1`, add-back, loop invariant, normalisation / de-normalisation shifts).
   `udivspec : UDivSpec w n` ("`div_rem_unchecked` is right on all `n`-digit operands") is what the
   layered results use.
+  Also proved: the three overflow-checked `q_hat -= 1` of Algorithm D never see `q_hat = 0`
+  (`knuthD_decrements_never_underflow`, `knuthD_checked_correct`); `next_multiple_of` on an
+  unrepresentable multiple panics in debug and wraps in release (`u_/i_nextMultipleOf_overflow`);
+  signed `div_floor` / `div_ceil` of `MIN / -1` return `MIN` without a panic
+  (`i_divFloor_divCeil_min_neg_one` — the statement's list of `MIN / -1` results does not name
+  these two methods; the primitive types panic there).
 -/
 import Bnum.Lemmas.KnuthD
+import Bnum.Lemmas.C03Extra
 namespace Bnum.C03
 open Bnum DivL
 
@@ -33,6 +40,29 @@ theorem udivspec {w n : Nat} (hw : 1 ≤ w) (hn : 1 ≤ n) : UDivSpec w n :=
 example : WF 8 3 [5, 8, 128] ∧ WF 8 3 [195, 128, 0] ∧ lastDigitIndex [195, 128, 0] ≠ 0 ∧
     U 8 [195, 128, 0] < U 8 [5, 8, 128] := by decide
 example : KD.basecaseDivRem 8 [5, 8, 128] [195, 128, 0] 2 = .ok ([254, 0, 0], [139, 70, 0]) := by decide
+
+/-- C03, Algorithm D, the three `q_hat -= 1` statements (overflow-checked on the digit type in debug
+    builds, wrapping in release builds): Algorithm D written with the decrements as compiled
+    (`KD.basecaseDivRemC dbg`, Model/C03Extra.lean: panic resp. wrap to `Digit::MAX` at `q_hat = 0`)
+    is, on ALL inputs and in both build modes, the function `KD.basecaseDivRem` that `knuthD_correct`
+    is about — a correction decrement is guarded by a strict `>` against a product with `q_hat`, the
+    add-back decrement by a borrow that `q_hat = 0` cannot produce.  So the model hides no debug
+    panic and no release wrap-around. -/
+theorem knuthD_decrements_never_underflow (dbg : Bool) (w : Nat) (a v : List Nat) (n : Nat) :
+    KD.basecaseDivRemC dbg w a v n = KD.basecaseDivRem w a v n := KD.basecaseDivRemC_eq dbg w a v n
+-- a run in which decrements are executed (add-back), evaluated through the checked version
+example : KD.basecaseDivRemC true 8 [5, 8, 128] [195, 128, 0] 2 = .ok ([254, 0, 0], [139, 70, 0]) ∧
+    KD.decDigit true 8 0 = .panic ∧ KD.decDigit false 8 0 = .ok 255 := by decide
+
+/-- … consequently the checked version is correct too (same statement as `KnuthD_correct`) -/
+theorem knuthD_checked_correct {w : Nat} (hw : 1 ≤ w) (dbg : Bool) {N : Nat} {a v : List Nat}
+    (ha : WF w N a) (hv : WF w N v) (hl : lastDigitIndex v ≠ 0) (hlt : U w v < U w a) :
+    ∃ q r, KD.basecaseDivRemC dbg w a v (lastDigitIndex v + 1) = .ok (q, r) ∧ WF w N q ∧ WF w N r ∧
+      U w q = U w a / U w v ∧ U w r = U w a % U w v := by
+  rw [knuthD_decrements_never_underflow]
+  exact knuthD_correct hw N a v ha hv hl hlt
+example : WF 8 3 [5, 8, 128] ∧ WF 8 3 [195, 128, 0] ∧ lastDigitIndex [195, 128, 0] ≠ 0 ∧
+    U 8 [195, 128, 0] < U 8 [5, 8, 128] := by decide
 
 /-! ## 1. `digit::div_rem_wide` and short division -/
 
@@ -208,6 +238,20 @@ theorem u_checkedNextMultipleOf_spec {w n : Nat} {a b : List Nat} (hw : 1 ≤ w)
     push_cast at this ⊢
     exact this
 
+/-- C03, `BUint::next_multiple_of` when the multiple is NOT representable (≥ 2^BITS): the debug
+    build panics, the release build returns the multiple modulo 2^BITS (what the correspondence
+    run's spec demands for these requests) -/
+theorem u_nextMultipleOf_overflow {w n : Nat} {a b : List Nat} (hw : 1 ≤ w) (hn : 1 ≤ n)
+    (ha : WF w n a) (hb : WF w n b) (hb0 : U w b ≠ 0)
+    (hov : ¬ (Spec.nextMultiple (U w a) (U w b) < M w n)) :
+    UI.nextMultipleOf true w a b = .panic ∧
+    ∃ r, UI.nextMultipleOf false w a b = .ok r ∧ WF w n r ∧
+      U w r = wrapU (M w n) (Spec.nextMultiple (U w a) (U w b)) :=
+  DivX.u_nextMultipleOf_overflow (udivspec hw hn) ha hb hb0 hov
+example : WF 8 1 [254] ∧ WF 8 1 [7] ∧ U 8 [7] ≠ 0 ∧
+    ¬ (Spec.nextMultiple (U 8 [254]) (U 8 [7]) < M 8 1) ∧
+    wrapU (M 8 1) (Spec.nextMultiple (U 8 [254]) (U 8 [7])) = 3 := by decide
+
 /-- C03: a zero divisor yields `None` from every checked form of `BUint` and a panic from all
     other forms -/
 theorem u_zero_divisor {w : Nat} {a b : List Nat} (hb0 : U w b = 0) (dbg : Bool) :
@@ -332,6 +376,21 @@ theorem i_checkedNextMultipleOf_spec {w n : Nat} {a b : List Nat} (hw : 2 ≤ w)
       (∀ r, o = some r → WF w n r ∧ S w r = Spec.nextMultiple (S w a) (S w b)) :=
   II.i_checkedNextMultipleOf_spec hw hn (udivspec (by omega) hn) ha hb hb0 dbg
 
+/-- C03, `BInt::next_multiple_of` when the multiple is NOT representable: the debug build panics,
+    the release build returns its two's-complement wrap -/
+theorem i_nextMultipleOf_overflow {w n : Nat} {a b : List Nat} (hw : 2 ≤ w) (hn : 1 ≤ n)
+    (ha : WF w n a) (hb : WF w n b) (hb0 : S w b ≠ 0)
+    (hov : ¬ repS (M w n) (Spec.nextMultiple (S w a) (S w b))) :
+    II.nextMultipleOf true w a b = .panic ∧
+    ∃ r, II.nextMultipleOf false w a b = .ok r ∧ WF w n r ∧
+      S w r = wrapS (M w n) (Spec.nextMultiple (S w a) (S w b)) :=
+  DivX.i_nextMultipleOf_overflow hw hn (udivspec (by omega) hn) ha hb hb0 hov
+-- positive divisor (overflow in the final `add`) and negative divisor (overflow in the final `sub`)
+example : WF 8 1 [127] ∧ WF 8 1 [7] ∧ S 8 [7] ≠ 0 ∧
+    ¬ repS (M 8 1) (Spec.nextMultiple (S 8 [127]) (S 8 [7])) ∧
+    WF 8 1 [0x81] ∧ WF 8 1 [0xf9] ∧ S 8 [0xf9] = -7 ∧ S 8 [0x81] = -127 ∧
+    ¬ repS (M 8 1) (Spec.nextMultiple (S 8 [0x81]) (S 8 [0xf9])) := by decide
+
 /-- C03: a zero divisor yields `None` from every checked form of `BInt` and a panic elsewhere -/
 theorem i_zero_divisor {w n : Nat} {a b : List Nat} (hw : 2 ≤ w) (hn : 1 ≤ n) (ha : WF w n a)
     (hb : WF w n b) (hb0 : S w b = 0) (dbg : Bool) :
@@ -393,6 +452,33 @@ theorem i_min_neg_one {w n : Nat} {a b : List Nat} (hw : 2 ≤ w) (hn : 1 ≤ n)
     II.divEuclid, II.remEuclid, II.overflowingDiv, II.overflowingRem, II.overflowingDivEuclid,
     II.overflowingRemEuclid, hz, hlen, Outcome.map, tupleToOption]
 
+/-- C03, what the code does for signed `div_floor` / `div_ceil` of `MIN / -1` (the one request the
+    statement does not pin down: these methods have no overflow channel): both return `MIN` — the
+    exact quotient `2^(BITS-1)` wrapped — and neither panics, in both build modes.  (The primitive
+    `iN::div_floor(MIN, -1)` panics; the correspondence run accepts `P` or `MIN` and nothing else.) -/
+theorem i_divFloor_divCeil_min_neg_one {w n : Nat} {a b : List Nat} (hw : 2 ≤ w) (hn : 1 ≤ n)
+    (ha : WF w n a) (hb : WF w n b) (hov : S w a = -((M w n / 2 : Nat) : Int) ∧ S w b = -1)
+    (dbg : Bool) :
+    II.divFloor dbg w a b = .ok (iMin w n) ∧ II.divCeil dbg w a b = .ok (iMin w n) ∧
+    S w (iMin w n) = wrapS (M w n) ((S w a).fdiv (S w b)) ∧
+    S w (iMin w n) = wrapS (M w n) (Spec.cdiv (S w a) (S w b)) := by
+  obtain ⟨h1, h2⟩ := DivX.i_divFloorCeil_min_neg_one hw hn (udivspec (by omega) hn) ha hb hov dbg
+  have hw1 : 1 ≤ w := by omega
+  have hme := M_even hw1 hn
+  have hM := M_pos w n
+  have e1 : (S w a).fdiv (S w b) = ((M w n / 2 : Nat) : Int) := by
+    rw [hov.1, hov.2, DivL.fdiv_of_tdiv _ _ (by decide)]
+    simp [Int.tdiv_neg, Int.tmod_neg]
+  have e2 : Spec.cdiv (S w a) (S w b) = ((M w n / 2 : Nat) : Int) := by
+    rw [hov.1, hov.2, DivL.cdiv_of_tdiv _ _ (by decide)]
+    simp [Int.tdiv_neg, Int.tmod_neg]
+  have e3 : wrapS (M w n) ((M w n / 2 : Nat) : Int) = -((M w n / 2 : Nat) : Int) := by
+    unfold wrapS
+    rw [wrapU_natCast, Nat.mod_eq_of_lt (by omega), toInt_of_ge (by omega)]
+    omega
+  exact ⟨h1, h2, by rw [e1, e3, S_iMin hw1 hn], by rw [e2, e3, S_iMin hw1 hn]⟩
+example : II.divFloor true 8 [0x00, 0x80] [0xff, 0xff] = .ok [0x00, 0x80] ∧
+    II.divCeil false 8 [0x00, 0x80] [0xff, 0xff] = .ok [0x00, 0x80] := by decide
 
 /-! ## 5. the hypotheses are satisfiable; concrete evaluations by the kernel -/
 
